@@ -78,6 +78,8 @@ def runner(scn):
 def specs(r):
     out, scn = r["obs"][0], r["scn"]
     qs = []
+    if out.get("uncontrollable"):
+        return qs
     m, nj = scn["n_threads"], len(scn["jobs"])
     if out.get("deadlock"):
         qs.append(("spec eq 0 1", {"what": "deadlock / exec_jobs never returns", "waits": out["deadlock"], "n_threads": m, "barrier": bool(scn.get("barriers"))}))
